@@ -20,7 +20,10 @@ import numpy as np
 
 from vlib.core import Violation, require
 
-TMPROOT = '/dev/shm' if os.path.isdir('/dev/shm') and os.access('/dev/shm', os.W_OK) else None
+_GOLD, _M1, _M2 = np.uint64(0x9E3779B97F4A7C15), np.uint64(0xBF58476D1CE4E5B9), np.uint64(0x94D049BB133111EB)
+_S30, _S27, _S31, _S11 = np.uint64(30), np.uint64(27), np.uint64(31), np.uint64(11)
+
+TMPROOT ='/dev/shm' if os.path.isdir('/dev/shm') and os.access('/dev/shm', os.W_OK) else None
 
 
 class FileSet:
@@ -68,9 +71,14 @@ def tempdir(prefix='verif_fmt_'):
 
 def values(seed, rep, cfg, block, n, lo=-1.0, hi=1.0):
     """n doubles in [lo, hi): a pure function of the arguments (one generator per record and block)."""
-    h = hashlib.blake2b(('%s:%s:%s:%s' % (seed, rep, cfg, block)).encode(), digest_size=4).digest()
-    rng = np.random.RandomState(int.from_bytes(h, 'big'))
-    return rng.uniform(lo, hi, size=n)
+    h = hashlib.blake2b(('%s:%s:%s:%s' % (seed, rep, cfg, block)).encode(), digest_size=8).digest()
+    # splitmix64 stream started at the hash (array arithmetic in uint64 wraps around, as intended)
+    z = np.full(n, int.from_bytes(h, 'big'), dtype=np.uint64) + np.arange(1, n + 1, dtype=np.uint64) * _GOLD
+    z = (z ^ (z >> _S30)) * _M1
+    z = (z ^ (z >> _S27)) * _M2
+    z = z ^ (z >> _S31)
+    u = (z >> _S11).astype(np.float64) / 9007199254740992.0
+    return lo + (hi - lo) * u
 
 
 def permuted(names, mode):
